@@ -1,6 +1,6 @@
 CONSTANTS
   Vals = {1, 2, 3, 4}
-  FeeLevels = {110, 150, 200}
+  FeeLevels = {110, 200}
   BaseFee = 110
   TopK = 3
   Times = {0, 1, 2}
@@ -18,5 +18,5 @@ CONSTANTS
   RowMode = "canon"
 INIT Init
 NEXT NextRows
-INVARIANTS TypeOK AssigneeEligible PickAmongBest PickSpreads NoEligibleMeansNone
+INVARIANTS TypeOK AssigneeEligible MevIsPerChain PickAmongBest PickSpreads NoEligibleMeansNone
 CHECK_DEADLOCK FALSE
